@@ -34,7 +34,7 @@ pub fn exact_distance(metric: Metric, dims: usize, q: &[f32], v: &[f32]) -> Exac
         }
         Metric::Manhattan => {
             let s: f64 = q.iter().zip(v).map(|(a, b)| (*a as f64 - *b as f64).abs()).sum();
-            Exact { value: s, tol: s * 4.0 * (n + 2.0) * U + 1e-36, exempt: s > (f32::MAX as f64) / 4.0 }
+            Exact { value: s, tol: s * 4.0 * (n + 2.0) * U, exempt: s > (f32::MAX as f64) / 4.0 }
         }
         Metric::DotProduct => {
             let s: f64 = q.iter().zip(v).map(|(a, b)| *a as f64 * *b as f64).sum();
